@@ -67,19 +67,47 @@ theorem C04_clean (c : NcCell) :
 
 /-- Text: a token is missing iff it does not parse as a number, or parses to -999 or NaN. -/
 theorem C04_textclean (t : Tok) :
-    textClean t = nan ↔ t = .bad ∨ t = .num (fin (-999)) ∨ t = .num nan := by
+    textClean t = nan ↔ t = .bad ∨ t = .num (fin (-999)) ∨ t = .num nan ∨ t = .num pinf
+      ∨ ∃ q : Rat, t = .num (fin q) ∧ q > 1000000000000000019884624838656 := by
   cases t with
   | bad => simp [textClean]
   | num v =>
     cases v with
     | nan => simp [textClean, XR.eqb]
-    | pinf => simp [textClean, XR.eqb]
-    | ninf => simp [textClean, XR.eqb]
+    | pinf => simp [textClean, XR.eqb, XR.gt, XR.lt]
+    | ninf => simp [textClean, XR.eqb, XR.gt, XR.lt]
     | fin q =>
-      simp only [textClean, XR.eqb]
-      by_cases h : q = -999
-      · simp [h]
-      · simp [h]
+      simp only [textClean, XR.eqb, XR.gt, XR.lt, Bool.or_eq_true, decide_eq_true_eq]
+      constructor
+      · intro h
+        split at h
+        · rename_i hc
+          rcases hc with hc | hc
+          · right; left; rw [hc]
+          · right; right; right; right; exact ⟨q, rfl, hc⟩
+        · cases h
+      · intro h
+        rcases h with h | h | h | h | ⟨q', h, hq⟩
+        · cases h
+        · injection h with h; injection h with h; simp [h]
+        · cases h
+        · cases h
+        · injection h with h; injection h with h; subst h; simp [hq]
+
+/-- a text value that is none of the missing encodings is read as it stands (incl. -inf) -/
+theorem C04_textclean_keeps (q : Rat) (h1 : q ≠ -999) (h2 : q ≤ 1000000000000000019884624838656) :
+    textClean (.num (fin q)) = fin q ∧ textClean (.num ninf) = ninf := by
+  refine ⟨?_, by simp [textClean, XR.eqb, XR.gt, XR.lt]⟩
+  simp only [textClean, XR.eqb, XR.gt, XR.lt, Bool.or_eq_true, decide_eq_true_eq]
+  have : ¬ (q = -999 ∨ 1000000000000000019884624838656 < q) := by
+    intro h; rcases h with h | h
+    · exact h1 h
+    · exact absurd h (not_lt.mpr h2)
+  simp [this]
+
+/-- text and NetCDF agree on every number: the two readers have the same missing-value encodings -/
+theorem C04_text_nc_agree (v : XR) : textClean (.num v) = clean (.val v) := by
+  cases v <;> simp [textClean, clean, XR.isNan, XR.eqb, XR.gt, XR.lt]
 
 /-! ### validity filtering in `get_scores` -/
 
